@@ -42,7 +42,7 @@ def fallback(p):
 
 
 def run(tier):
-    return sc.run_family(PID, tier, RULE, select, want=want, cap=dict(quick=300, thorough=3000), transform=fallback)
+    return sc.run_family(PID, tier, RULE, select, want=want, cap=dict(quick=300, thorough=1500), transform=fallback)
 
 
 def replay(path):
